@@ -175,6 +175,9 @@ def run(ctx):
     r.ob("R11.2.text-reads", "library", n > 0, "%d reads of Element.text outside derived impls" % n, key="R11.2|count", nontrivial=True)
     # R11.4
     c08.forbidden_calls(r, lib, c08.CONFIG, "R11.4.reader-config-untouched", "`%s` sets or reads reader configuration")
+    # the program hands the library a reader too: it must be a default-configured one (a stricter or looser reader makes
+    # the output depend on comments, end-tag spelling, empty-element form ...)
+    c08.forbidden_calls(r, ctx.bin, c08.CONFIG, "R11.4.reader-config-untouched[cli]", "`%s` configures the reader the program hands to the library")
     # R11.5 determinism of the demotion order
     nondet.scan_hash(r, lib)
     # R11.6 buffer
